@@ -44,6 +44,13 @@ def reg(file, fn, props, tier="quick", flavour="real", timeout=600, timeout_thor
     return d
 
 
+# Written but NOT registered (never seen to finish in this sandbox; an unverified harness is not part of any claim):
+#   c14_insert_mount_{fresh,over}: symex completes (212 719 VCCs) but the SAT query did not finish in 40 min
+#   c07_allocate_idx: drop glue of the 256-entry clone dominates, no verdict in 32 min
+#   c07_rootmnt_rename_concrete: timeout at 850 s; c07_rootmnt_route_setattr_vacant: never run to completion
+UNREGISTERED = ("c14_insert_mount_fresh", "c14_insert_mount_over", "c07_allocate_idx", "c07_rootmnt_rename_concrete", "c07_rootmnt_route_setattr_vacant")
+
+
 # The quick tier has to finish well inside 900 s on 16 cores (measured by `vp check`): harnesses
 # that alone take > 250 s, or that ran out of memory once, run in the thorough tier only.
 QUICK_DEMOTE = {
@@ -62,7 +69,7 @@ def is_quick(h):
 def select(pid, tier):
     out = []
     for h in H:
-        if pid not in h["props"]:
+        if pid not in h["props"] or h["fn"] in UNREGISTERED:
             continue
         if tier == "quick" and not is_quick(h):
             continue
